@@ -506,40 +506,96 @@ def check(model, rep, tier):
   rep.check(ok, 'CFG-JUMP', '%s:exit-node-wiring' % pes.site,
             'exit statements must be added with the enclosing finally guards; '
             'raises additionally with the enclosing handlers', line=pes.node.lineno)
+  def scan(f, depth=0):
+    """Summary of a function that scans a sequence once: source text, guards of
+    the early exits, guards of the collecting appends -- all phrased on one
+    element variable `N`.  A scan over the (unfiltered) result of another scan
+    of this class is composed with it: the two-step form (walk, then filter) and
+    the one-loop form have the same summary."""
+    loops = [n for n in ast.walk(f.node) if isinstance(n, (ast.For, ast.ListComp,
+                                                           ast.GeneratorExp))]
+    if len(loops) != 1:
+      return None
+    lp = loops[0]
+    if isinstance(lp, ast.For):
+      tgt, src, body = lp.target, lp.iter, lp
+    else:
+      if len(lp.generators) != 1:
+        return None
+      tgt, src, body = lp.generators[0].target, lp.generators[0].iter, None
+    if not isinstance(tgt, ast.Name):
+      return None
+    lv = tgt.id
+
+    class Ren(ast.NodeTransformer):
+      def __init__(self, m):
+        self.m = m
+
+      def visit_Name(self, n):
+        return ast.Name(id=self.m.get(n.id, n.id), ctx=n.ctx)
+
+    def txt(e, m):
+      return core.norm(Ren(m).visit(ast.parse(core.norm(e), mode='eval').body))
+    ren = {lv: 'N'}
+    exits, collects = [], []
+    if body is not None:
+      for x in ast.walk(lp):
+        if isinstance(x, (ast.Break, ast.Return, ast.Continue)):
+          gd = None
+          for i in ast.walk(lp):
+            if isinstance(i, ast.If) and any(y is x for b in i.body for y in ast.walk(b)):
+              gd = txt(i.test, ren)
+          exits.append(gd)
+        if isinstance(x, ast.Call) and isinstance(x.func, ast.Attribute) and \
+            x.func.attr in ('append', 'extend') and isinstance(x.func.value, ast.Name):
+          gd = None
+          for i in ast.walk(lp):
+            if isinstance(i, ast.If) and any(y is x for b in i.body for y in ast.walk(b)):
+              gd = txt(i.test, ren)
+          collects.append((gd, x.func.attr, txt(x.args[0], ren) if x.args else None))
+    else:
+      g = lp.generators[0]
+      gd = None
+      if g.ifs:
+        t = g.ifs[0] if len(g.ifs) == 1 else ast.BoolOp(op=ast.And(), values=list(g.ifs))
+        gd = txt(t, ren)
+      collects.append((gd, 'append', txt(lp.elt, ren)))
+    out = {'src': core.norm(src), 'exits': exits, 'collects': collects}
+    # the source is the result of another scan of this class
+    if isinstance(src, ast.Name) and depth < 2:
+      for a in ast.walk(f.node):
+        if isinstance(a, ast.Assign) and isinstance(a.value, ast.Call) and \
+            isinstance(a.value.func, ast.Attribute) and core.norm(
+                a.value.func.value) == 'self' and a.value.func.attr in cls.methods and any(
+                    isinstance(t_, ast.Name) and t_.id == src.id
+                    for t0 in a.targets for t_ in ast.walk(t0)):
+          h = cls.methods[a.value.func.attr]
+          inner = scan(h, depth + 1)
+          if inner is None or inner['collects'] != [(None, 'append', 'N')]:
+            return None
+          # parameters of the inner scan -> arguments at the call
+          m = dict(zip(h.params(), [core.norm(x) for x in a.value.args]))
+          sub = lambda t: None if t is None else txt(ast.parse(t, mode='eval').body, m)
+          out['src'] = sub(inner['src'])
+          out['exits'] = [sub(e_) for e_ in inner['exits']] + exits
+          out['via'] = h.name
+    return out
+
   for fname, early in (('_get_enclosing_finally_scopes', 'return'),
                        ('_get_enclosing_except_scopes', 'break')):
     f = cls.methods.get(fname)
-    loops = [n for n in ast.walk(f.node) if isinstance(n, ast.For)]
-    ok = len(loops) == 1 and core.norm(loops[0].iter) == 'reversed(self.lexical_scopes)'
+    sm = scan(f)
+    ok = sm is not None and sm['src'] == 'reversed(self.lexical_scopes)'
     facts = {}
     if ok:
-      lp = loops[0]
-      exits = [n for n in ast.walk(lp) if isinstance(n, (ast.Break, ast.Return,
-                                                         ast.Continue))]
-      guards = []
-      lv = core.norm(lp.target)
       stop_p = f.params()[0]
-      for x in exits:
-        gd = None
-        for i in ast.walk(lp):
-          if isinstance(i, ast.If) and any(y is x for b in i.body for y in ast.walk(b)):
-            gd = core.norm(i.test)
-        guards.append(gd)
-      facts = {'early_exits': guards}
-      ok = guards == ['isinstance(%s, %s)' % (lv, stop_p)]
+      facts = {'early_exits': sm['exits'], 'via': sm.get('via')}
+      ok = sm['exits'] == ['isinstance(N, %s)' % stop_p]
       # collection is unconditional apart from the Try test
-      coll = [n for n in ast.walk(lp) if isinstance(n, ast.Call) and isinstance(
-          n.func, ast.Attribute) and n.func.attr in ('append', 'extend')]
-      cg = []
-      for c in coll:
-        for i in ast.walk(lp):
-          if isinstance(i, ast.If) and any(y is c for b in i.body for y in ast.walk(b)):
-            cg.append(core.norm(i.test))
+      cg = [c[0] for c in sm['collects']]
       facts['collect_guards'] = cg
-      want = {'_get_enclosing_finally_scopes':
-              ['isinstance(%s, ast.Try) and %s.finalbody' % (lv, lv)],
-              '_get_enclosing_except_scopes':
-              ['isinstance(%s, ast.Try) and %s.handlers' % (lv, lv)]}[fname]
+      want = {'_get_enclosing_finally_scopes': ['isinstance(N, ast.Try) and N.finalbody'],
+              '_get_enclosing_except_scopes': ['isinstance(N, ast.Try) and N.handlers']}[fname]
       ok = ok and cg == want
     rep.check(ok, 'CFG-JUMP', '%s:collects-all-enclosing' % f.site,
               'guards must be collected from *every* enclosing try up to the '
